@@ -35,9 +35,9 @@ Segs(s) == SegsFrom(s, 1, <<>>)
 
 \* ---- operational: heck's scanner on one segment ------------------------
 \* i = current position, init = start of current word, mode in {"B","L","U"}
-NextMode(c, mode) == IF IsLower(c) THEN "L" ELSE IF IsUpper(c) THEN "U" ELSE mode
-BoundaryAfter(seg, i, mode)  == NextMode(seg[i], mode) = "L" /\ IsUpper(seg[i + 1])
-BoundaryBefore(seg, i, mode) == mode = "U" /\ IsUpper(seg[i]) /\ IsLower(seg[i + 1])
+NextMode(c, mode) == IF UIsLower(c) THEN "L" ELSE IF UIsUpper(c) THEN "U" ELSE mode
+BoundaryAfter(seg, i, mode)  == NextMode(seg[i], mode) = "L" /\ UIsUpper(seg[i + 1])
+BoundaryBefore(seg, i, mode) == mode = "U" /\ UIsUpper(seg[i]) /\ UIsLower(seg[i + 1])
 
 RECURSIVE ScanFrom(_, _, _, _)
 ScanFrom(seg, i, init, mode) ==
@@ -58,17 +58,17 @@ ScanWords(s) == ScanAll(Segs(s))
 \* EffCase(seg, p): case of the last cased character at or before p ("B" if none)
 RECURSIVE EffCase(_, _)
 EffCase(seg, p) == IF p = 0 THEN "B"
-                   ELSE IF IsLower(seg[p]) THEN "L"
-                   ELSE IF IsUpper(seg[p]) THEN "U"
+                   ELSE IF UIsLower(seg[p]) THEN "L"
+                   ELSE IF UIsUpper(seg[p]) THEN "U"
                    ELSE EffCase(seg, p - 1)
 \* a word ends after position p (1 <= p < Len) iff
 \*   lower->Upper : the last cased char up to p is lowercase and seg[p+1] is uppercase, or
 \*   acronym      : seg[p+1] is uppercase, seg[p+2] is lowercase, and the last cased char up to p
 \*                  is uppercase (so "HTTPServer" splits before the S)
 EndsAfter(seg, p) ==
-  \/ EffCase(seg, p) = "L" /\ IsUpper(seg[p + 1])
+  \/ EffCase(seg, p) = "L" /\ UIsUpper(seg[p + 1])
   \/ /\ p + 2 <= Len(seg)
-     /\ IsUpper(seg[p + 1]) /\ IsLower(seg[p + 2]) /\ EffCase(seg, p) = "U"
+     /\ UIsUpper(seg[p + 1]) /\ UIsLower(seg[p + 2]) /\ EffCase(seg, p) = "U"
 Ends(seg) == {p \in 1..(Len(seg) - 1) : EndsAfter(seg, p)} \cup (IF seg = <<>> THEN {} ELSE {Len(seg)})
 \* the k-th smallest element of a finite set of naturals
 RECURSIVE SortedSeq(_)
@@ -86,19 +86,19 @@ Words(s) == DeclWords(s)
 -----------------------------------------------------------------------------
 ConvertWith(W(_), style, s) ==
   LET ws == W(s) IN
-  CASE style = "snake_case"           -> Join(MapSeq(ws, Lower), <<95>>)
-    [] style = "kebab-case"           -> Join(MapSeq(ws, Lower), <<45>>)
-    [] style = "SCREAMING_SNAKE_CASE" -> Join(MapSeq(ws, Upper), <<95>>)
-    [] style = "SCREAMING-KEBAB-CASE" -> Upper(Join(MapSeq(ws, Lower), <<45>>))
-    [] style = "title_case"           -> Join(MapSeq(ws, Capitalize), <<32>>)
-    [] style = "Train-Case"           -> Join(MapSeq(ws, Capitalize), <<45>>)
-    [] style = "PascalCase"           -> Flat(MapSeq(ws, Capitalize))
+  CASE style = "snake_case"           -> Join(MapSeq(ws, ULower), <<95>>)
+    [] style = "kebab-case"           -> Join(MapSeq(ws, ULower), <<45>>)
+    [] style = "SCREAMING_SNAKE_CASE" -> Join(MapSeq(ws, UUpper), <<95>>)
+    [] style = "SCREAMING-KEBAB-CASE" -> UUpper(Join(MapSeq(ws, ULower), <<45>>))
+    [] style = "title_case"           -> Join(MapSeq(ws, UCapitalize), <<32>>)
+    [] style = "Train-Case"           -> Join(MapSeq(ws, UCapitalize), <<45>>)
+    [] style = "PascalCase"           -> Flat(MapSeq(ws, UCapitalize))
     [] style = "mixed_case"           -> IF ws = <<>> THEN <<>>
-                                         ELSE Lower(ws[1]) \o Flat(MapSeq(Tail(ws), Capitalize))
-    [] style = "camelCase"            -> LET p == Flat(MapSeq(ws, Capitalize)) IN
-                                         IF p = <<>> THEN p ELSE <<Lo(p[1])>> \o Tail(p)
-    [] style = "lowercase"            -> Lower(s)
-    [] style = "UPPERCASE"            -> Upper(s)
+                                         ELSE ULower(ws[1]) \o Flat(MapSeq(Tail(ws), UCapitalize))
+    [] style = "camelCase"            -> LET p == Flat(MapSeq(ws, UCapitalize)) IN
+                                         IF p = <<>> THEN p ELSE <<ULo(p[1])>> \o Tail(p)
+    [] style = "lowercase"            -> ULower(s)
+    [] style = "UPPERCASE"            -> UUpper(s)
     [] style = "none"                 -> s
 
 \* Convert(t, s): the identifier s under the serialize_all value t (aliases allowed; "none" = absent)
@@ -114,9 +114,12 @@ InsertUs(t, i) == IF i > Len(t) THEN <<>>
                        \o InsertUs(t, i + 1)
 Snakify(s) == InsertUs(Snake(s), 1)
 
+\* the identifiers on which this model of the conversion is faithful
+IdentInTable(s) == \A k \in 1..Len(s) : InCaseTable(s[k])
+
 \* style lemmas (checked in MC_Heck)
-NoUpper(t) == \A i \in 1..Len(t) : ~IsUpper(t[i])
-NoLower(t) == \A i \in 1..Len(t) : ~IsLower(t[i])
+NoUpper(t) == \A i \in 1..Len(t) : ~UIsUpper(t[i])
+NoLower(t) == \A i \in 1..Len(t) : ~UIsLower(t[i])
 LettersDigits(t) == [i \in 1..Len(t) |-> t[i]]
 OnlyAlnumOr(t, sep) == \A i \in 1..Len(t) : IsAlnum(t[i]) \/ t[i] = sep
 =============================================================================
